@@ -4157,6 +4157,12 @@ namespace detail {
                                 }
                             }
                         }
+                        else if (start < end)
+                        {
+                            // an item that was already evaluated ends the current run of indices
+                            results.evaluated_items.insert(range{start, end});
+                            start = end;
+                        }
                         ++index;
                     }
                     if (start < end)
